@@ -102,6 +102,22 @@ func NewRequestPacket(ntskeData ntske.Data) (pkt Packet, uniqueid []byte) {
 	return pkt, id
 }
 
+// encodedLen returns the number of bytes EncodePacket needs for pkt.
+func (pkt *Packet) encodedLen() int {
+	pad := func(n int) int { return (n + 3) &^ 3 }
+	n := ntpPacketLen + 4 + pad(len(pkt.UniqueID.ID))
+	for _, c := range pkt.Cookies {
+		n += 4 + pad(len(c.Cookie))
+	}
+	for _, c := range pkt.CookiePlaceholders {
+		n += 4 + pad(len(c.Cookie))
+	}
+	// authenticator: header, nonce and ciphertext lengths, 16-byte nonce,
+	// ciphertext (16-byte AES-SIV tag followed by the encrypted fields)
+	n += 4 + 4 + 16 + pad(16+len(pkt.Auth.PlainText))
+	return n
+}
+
 // EncodePacket encodes pkt to a byte slice. It is expected that
 // the first 48 bytes of the slice already contain a NTP packet.
 // NTS authentication is added here.
@@ -109,10 +125,11 @@ func EncodePacket(b *[]byte, pkt *Packet) {
 	if len(*b) != ntpPacketLen {
 		panic("unexpected NTP header")
 	}
-	if cap(*b) < MaxPacketLen {
-		*b = append(make([]byte, 0, MaxPacketLen), (*b)...)
+	n := max(MaxPacketLen, pkt.encodedLen())
+	if cap(*b) < n {
+		*b = append(make([]byte, 0, n), (*b)...)
 	}
-	*b = (*b)[:MaxPacketLen]
+	*b = (*b)[:n]
 
 	pos := ntpPacketLen
 	pos, err := pkt.UniqueID.pack(*b, pos)
